@@ -11,7 +11,7 @@ from ..repo import conditionalrewards as CR
 
 PROP = "C16"
 STEMS = ["g", "g_1", "robot_1_w2_l2", "a1_b2_c3", "coin_game_2_copy", "py_warmup", "games.v2", "manual_robot_w2_l2_r5.0_rb10_lb7_tb29_"]
-STYLES = ["repr", "generator", "expressions"]
+STYLES = ["repr", "generator", "expressions", "calls"]
 _CACHE = {}
 # legal dictionary keys that a report writer built on string formatting may mangle
 ODD_NAMES = ["G_{2}", "{n_states}_chain", "reach{goal}", "{0}", "{}", "100%", "%s and %d", "it's", 'say "hi"', "a#b", "2nd_game", "class", "back\\slash",
@@ -36,13 +36,21 @@ def check_file(names, stem, style):
         os.mkdir(os.path.join(tmp, "inputs"))
         os.mkdir(os.path.join(tmp, "outputs"))
         # environment: a longer report of the same name left behind by an earlier run; the new report must replace it entirely
-        with open(os.path.join(tmp, "outputs", stem + ".txt"), "w", encoding="utf-8") as f:
-            f.write(B.STALE_REPORT)
+        for stale in (stem, "ln_" + stem):
+            with open(os.path.join(tmp, "outputs", stale + ".txt"), "w", encoding="utf-8") as f:
+                f.write(B.STALE_REPORT)
         path = os.path.join("inputs", stem + ".py")
         with open(os.path.join(tmp, path), "w", encoding="utf-8") as f:
             f.write(text)
         # the same file addressed in three ways (dots in the directory part must not matter)
-        how = {"repr": path, "generator": "./" + path, "expressions": os.path.join("..", os.path.basename(tmp), path)}[style]
+        how = {"repr": path, "generator": "./" + path, "expressions": os.path.join("..", os.path.basename(tmp), path)}.get(style)
+        if how is None:
+            # "calls": the file is addressed through a symbolic link of another name; the report is named after what the user typed
+            link = os.path.join("inputs", "ln_" + stem + ".py")
+            os.symlink(stem + ".py", os.path.join(tmp, link))
+            how, report_stem = link, "ln_" + stem
+        else:
+            report_stem = stem
         os.chdir(tmp)
         # 1. the reader returns the games the file textually denotes
         try:
@@ -61,11 +69,14 @@ def check_file(names, stem, style):
         if st != "ok":
             return [("C16/main-crash", repr(val), None, "main() -f %s -s failed: %r" % (how, val))]
         files = sorted(os.listdir("outputs"))
-        if files != [stem + ".txt"]:
-            return [("C16/wrong-report-name", files, [stem + ".txt"], "outputs/ contains %r after running on -f %s" % (files, how))]
-        if sorted(os.listdir("inputs")) != [stem + ".py"]:
-            return [("C16/inputs-touched", sorted(os.listdir("inputs")), [stem + ".py"], "inputs/ was modified")]
-        body = open(os.path.join("outputs", stem + ".txt"), encoding="utf-8").read()
+        untouched = "ln_" + stem + ".txt" if report_stem == stem else stem + ".txt"
+        if files != sorted([stem + ".txt", "ln_" + stem + ".txt"]) or open(os.path.join("outputs", untouched), encoding="utf-8").read() != B.STALE_REPORT:
+            return [("C16/wrong-report-name", files, [report_stem + ".txt"], "outputs/ contains %r after running on -f %s; the report belongs in %s.txt and the other file must stay as it was"
+                     % (files, how, report_stem))]
+        want_inputs = sorted([stem + ".py"] + (["ln_" + stem + ".py"] if report_stem != stem else []))
+        if sorted(os.listdir("inputs")) != want_inputs:
+            return [("C16/inputs-touched", sorted(os.listdir("inputs")), want_inputs, "inputs/ was modified")]
+        body = open(os.path.join("outputs", report_stem + ".txt"), encoding="utf-8").read()
         try:
             blocks = B.parse_report(body)
         except ValueError as e:
@@ -100,8 +111,8 @@ def work(shard):
 
 
 RULE = ("input files = every ordered selection of 0..k games from the 7-game batch alphabet (solvable, unsolvable, malformed; None strategies, "
-        "empty strategy lists, a 42-state board game for long float vectors) x 6 file stems (underscores, digits, stems ending in 'p'/'y') x 3 textual renderings of the same dictionary "
-        "(plain repr, pretty-printed with a comment preamble, arithmetic expressions instead of literals); each is run through the real "
+        "empty strategy lists, a 42-state board game for long float vectors) x 6 file stems (underscores, digits, stems ending in 'p'/'y') x 4 textual renderings of the same dictionary "
+        "(plain repr, pretty-printed with a comment preamble, arithmetic expressions instead of literals, indented text with calls of built-in functions addressed through a symbolic link of another name); each is run through the real "
         "main() -f inputs/<stem>.py -s in a scratch directory and the report is parsed by an independent parser; every worker process handles its files one after the other under the same relative path names (inputs/<stem>.py rewritten with different games), so state kept between files shows as a difference; non-trivial = the file "
         "contains a failing game, a game with None/empty strategy entries or the 42-state game; plus files whose games carry odd names (braces, percent signs, quotes, '#', backslash, leading digit, keyword, 300 characters)")
 ASSUME = ["report layout: blocks introduced by a line of 160 '=', 14 lines per block, label padded to 24 characters then ': '",
